@@ -213,7 +213,6 @@ static void *
 worker_main(void *arg)
 {
 	struct worker *w = arg;
-	burn();
 	sem_post(&w->done);
 	for (;;) {
 		sem_wait(&w->go);
